@@ -22,12 +22,12 @@ CHECKS = {
    "7.3"),
  "C12": (True, "velocity+nodevel", "model_checking",
    "explicit-state search over the real VelocityControl (closes per config) and bounded exhaustive histories of approvals, clock advances and restarts on a real node, against a sliding-window oracle",
-   "Component: for limits {0, 100, 2^64-2}, 1-4 buckets and the three interval types, every sequence of insert(now+dt, amount) over bucket-edge time deltas and limit-edge amounts up to the depth bound / state closure, with the sum of approved amounts in any (N-1)-bucket window compared with the limit in u128. Node: every history of <= 5 (7) letters (keysend / invoice / on-chain fee at limit edges, clock +1/+11/+12 buckets, restart, the most recent request presented again unchanged, reload of the unchanged policy) on a real node with hourly limits; the same oracle on the log of approvals, across restarts.",
+   "Component: for limits {0, 100, 2^64-2}, 1-4 buckets and the three interval types, every sequence of insert(now+dt, amount) over bucket-edge time deltas and limit-edge amounts up to the depth bound / state closure, with the sum of approved amounts in any (N-1)-bucket window compared with the limit in u128; plus every (first spec, second spec) pair of five specs x update / repeated update / update + state round trip x three inserts at the new geometry's edges (a real change of spec may forget the history, anything else may not). Node: every history of <= 5 (7) letters (keysend / invoice / on-chain fee at limit edges, clock +1/+11/+12 buckets, restart, the most recent request presented again unchanged, reload of the unchanged policy) on a real node with hourly limits; the same oracle on the log of approvals, across restarts.",
    "ManualClock; non-decreasing time (as in the statement).",
    "5.3"),
  "C15": (True, "nodemc", "model_checking",
    "bounded exhaustive histories of open/new/forget/heartbeat/block macro-steps/disconnect/restart on a real node with ghost predicates",
-   "Every history of <= 5 (7) letters in eight scenarios (life cycle from nothing, mutual close, funding double-spend, unilateral close with HTLC sweeps, all outputs swept, only the HTLC outputs swept, three channel ids created / forgotten in any order, a prunable channel with a permanent id; the unilateral ones for static-remotekey and anchors channels and for the holder's and the counterparty's commitment), over the plain and the cloud store: NewChannel, ForgetChannel, GetHeartbeat, blocks carrying funding / double-spend / mutual close / sweeps, macro-steps of 1, 98 and 99 empty blocks (straddling the 100-block depth), disconnects and restarts; after every letter each ready channel must be present live and in the store unless a forget was requested and the close is buried >= 100 on the harness's own copy of the best chain; a NewChannel at or below a forgotten id must fail.",
+   "Every history of <= 5 (7) letters in nine scenarios (two parts of one payment with identical output scripts of which one stays unswept, life cycle from nothing, mutual close, funding double-spend, unilateral close with HTLC sweeps, all outputs swept, only the HTLC outputs swept, three channel ids created / forgotten in any order, a prunable channel with a permanent id; the unilateral ones for static-remotekey and anchors channels and for the holder's and the counterparty's commitment), over the plain and the cloud store: NewChannel, ForgetChannel, GetHeartbeat, blocks carrying funding / double-spend / mutual close / sweeps, macro-steps of 1, 98 and 99 empty blocks (straddling the 100-block depth), disconnects and restarts; after every letter each ready channel must be present live and in the store unless a forget was requested and the close is buried >= 100 on the harness's own copy of the best chain; a NewChannel at or below a forgotten id must fail.",
    "Depth-bounded (not closed): the bounded space of histories is covered completely.",
    "6.3"),
  "C13": (True, "chain13", "model_checking",
